@@ -45,9 +45,11 @@ Definition field_bytes (h : header) (f : N) : list N :=
 Definition place (buf : list N) (a : nat) (bs : list N) : list N :=
   firstn a buf ++ bs ++ skipn (a + length bs) buf.
 
-Definition to_raw_with (hsize : N) (wl : list (N * N * N)) (h : header) : list N :=
-  fold_left (fun buf e => let '(f, a, _) := e in place buf (N.to_nat a) (field_bytes h f))
+Definition to_raw_gen (hsize : N) (wl : list (N * N * N)) (fb : N -> list N) : list N :=
+  fold_left (fun buf e => let '(f, a, _) := e in place buf (N.to_nat a) (fb f))
             wl (repeat 0 (N.to_nat hsize)).
+Definition to_raw_with (hsize : N) (wl : list (N * N * N)) (h : header) : list N :=
+  to_raw_gen hsize wl (field_bytes h).
 
 Definition read_field (rl : list (N * list N)) (f : N) (buf : list N) : list N :=
   match aget rl f with
@@ -205,12 +207,14 @@ Definition nzb (b : N) : bool :=
   let a := f32_abs b in (gen_sparse_eps_bits <? a) && (a <=? f32_inf).     (* v.abs() > eps *)
 Definition nnz (v : list N) : N := N.of_nat (length (filter nzb v)).
 Definition use_sparse (v : list N) : bool := nnz v * gen_sparse_factor <=? N.of_nat (length v).
-Definition clean (v : list N) : list N := map (fun x => if nzb x then x else 0) v.
+(* which components the sparse form keeps: everything but +0.0 (repaired code), or only |v| > eps *)
+Definition keepb (b : N) : bool := if gen_sparse_keep_exact then negb (b =? 0) else nzb b.
+Definition clean (v : list N) : list N := map (fun x => if keepb x then x else 0) v.
 
 Fixpoint sp_entries (i : nat) (v : list N) : list (nat * N) :=
   match v with
   | [] => []
-  | x :: r => if nzb x then (i, x) :: sp_entries (S i) r else sp_entries (S i) r
+  | x :: r => if keepb x then (i, x) :: sp_entries (S i) r else sp_entries (S i) r
   end.
 Fixpoint upd (d : list N) (i : nat) (x : N) : list N :=
   match d, i with
@@ -504,3 +508,33 @@ Definition q_roundtrip (delta : bool) (r : router) : router :=
                           | None => acc
                           end)
             (dump r) (empty_router (r_dim r)).
+
+(* ------------------------------------------------------------------ property-level equality through the quantising format *)
+Definition dense_of (v : tval) : option (list N) :=
+  match v with
+  | TVec x => Some x
+  | TSparse d p vs => Some (sparse_dense d p vs)
+  | _ => None
+  end.
+Definition elem_close (x y : N) : bool := N.eqb x y || (f32_is_zero x && f32_is_zero y).
+Definition vec_close (a b : list N) : bool := list_eqb elem_close a b.
+(* exact, except that a vector payload is compared numerically in dense form (the quantisation
+   error configured with tensor_mode = None is zero) *)
+Definition q_equal (x y : tval) : bool :=
+  match dense_of x, dense_of y with
+  | Some a, Some b => vec_close a b
+  | _, _ => tval_eqb x y
+  end.
+(* the f32 -> u64 -> f32 cast of the id-list path gives the value back *)
+Definition cast_ok (b : N) : bool := elem_close b (u64_to_f32 (f32_to_u64 b)).
+Definition is_bytes_scalar (v : tval) : bool :=
+  match v with TScalar (SBytes _) => true | _ => false end.
+Definition id_path_lossy (delta : bool) (fname : str) (v : tval) : bool :=
+  match dense_of v with
+  | Some d => delta && looks_like_id_list d fname && negb (forallb cast_ok d)
+  | None => false
+  end.
+(* the two known-finding classes of the quantising format *)
+Definition quant_known (delta : bool) (fname : str) (v : tval) : bool :=
+  is_bytes_scalar v || id_path_lossy delta fname v.
+
